@@ -1,0 +1,138 @@
+//go:build verif
+
+// Contracts for govc (/verif): C15 "Finalizing a snapshot is atomic and idempotent" (with the parts of C16/C17 that live in the same functions).
+// Comment-only file. Key space, T-KV vocabulary: zz_contracts_c03_verif.go and /verif/govc/trusted/badger.spec.
+
+package storage
+
+//@ -- ═════════ storage key space, continued (kinds 7..16) ═════════
+//@ -- Same scheme as in zz_contracts_c03_verif.go: one uninterpreted, axiomatically invertible constructor per prefix. The prefixes
+//@ -- added here are "UNIQUE" "SNAPSHOT" "TOPOLOGY" "SNAPTOPO" "WORKSNAPSHOT" "ASSETINFO" "ASSETTOTAL" and, for frames only,
+//@ -- "NODESTATEQUEUE" "CUSTODIANUPDATE" "WITHDRAWAL". Together with "UTXO" "GHOST" "DEPOSIT" "MINTUNIVERSAL" "TRANSACTION" "FINALIZATION" no
+//@ -- prefix is a prefix of another one (UTXO/UNIQUE differ at byte 1, SNAPSHOT/SNAPTOPO at byte 4, TOPOLOGY/TRANSACTION at byte 1,
+//@ -- ASSETINFO/ASSETTOTAL at byte 5, WORKSNAPSHOT/WITHDRAWAL at byte 1, all others at byte 0), every payload has a fixed width (32-byte
+//@ -- hashes, 8-byte big-endian integers), so the constructors are injective with pairwise disjoint ranges. ASSUMED (argued, not derived).
+//@ uninterp UniqKeyId(n mathint, h mathint) mathint
+//@ uninterp SnapKeyId(n mathint, r mathint, h mathint) mathint
+//@ uninterp TopoKeyId(o mathint) mathint
+//@ uninterp SnapTopoKeyId(h mathint) mathint
+//@ uninterp WorkSnapKeyId(n mathint, r mathint, ts mathint) mathint
+//@ uninterp AssetInfoKeyId(a mathint) mathint
+//@ uninterp AssetTotalKeyId(a mathint) mathint
+//@ uninterp keynode(k mathint) mathint
+//@ axiom forall n, h mathint :: {UniqKeyId(n, h)} keykind(UniqKeyId(n, h)) == 7 && keyhid(UniqKeyId(n, h)) == h && keynode(UniqKeyId(n, h)) == n
+//@ axiom forall n, r, h mathint :: {SnapKeyId(n, r, h)} keykind(SnapKeyId(n, r, h)) == 8 && keyhid(SnapKeyId(n, r, h)) == h && keynode(SnapKeyId(n, r, h)) == n && (0 <= r && r < 18446744073709551616 ==> keynum(SnapKeyId(n, r, h)) == r)
+//@ axiom forall o mathint :: {TopoKeyId(o)} keykind(TopoKeyId(o)) == 9 && (0 <= o && o < 18446744073709551616 ==> keynum(TopoKeyId(o)) == o)
+//@ axiom forall h mathint :: {SnapTopoKeyId(h)} keykind(SnapTopoKeyId(h)) == 10 && keyhid(SnapTopoKeyId(h)) == h
+//@ axiom forall n, r, ts mathint :: {WorkSnapKeyId(n, r, ts)} keykind(WorkSnapKeyId(n, r, ts)) == 11 && keynode(WorkSnapKeyId(n, r, ts)) == n
+//@ axiom forall a mathint :: {AssetInfoKeyId(a)} keykind(AssetInfoKeyId(a)) == 12 && keyhid(AssetInfoKeyId(a)) == a
+//@ axiom forall a mathint :: {AssetTotalKeyId(a)} keykind(AssetTotalKeyId(a)) == 13 && keyhid(AssetTotalKeyId(a)) == a
+//@ -- kinds 14 (NODESTATEQUEUE), 15 (CUSTODIANUPDATE), 16 (WITHDRAWAL) have no constructor here: they only occur in the assumed frames of the writers called by writeUTXO.
+//@ spec QK(n crypto.Hash, h crypto.Hash) mathint = UniqKeyId(kvval(n), kvval(h))
+//@ spec SK(n crypto.Hash, r mathint, h crypto.Hash) mathint = SnapKeyId(kvval(n), r, kvval(h))
+//@ spec AIK(a crypto.Hash) mathint = AssetInfoKeyId(kvval(a))
+//@ spec ATK(a crypto.Hash) mathint = AssetTotalKeyId(kvval(a))
+//@ -- KeyAsVal(k): the value id of the byte string whose key id is k (TOPOLOGY entries hold a snapshot key, SNAPTOPO entries a topology key).
+//@ -- Well defined because key ids are injective in the content (intended model: id == content).
+//@ uninterp KeyAsVal(k mathint) mathint
+
+//@ assume func graphUniqueKey
+//@   modifies nothing
+//@   ensures fresh(result) && kvkey(result) == QK(nodeId, txh)
+//@ assume func graphSnapshotKey
+//@   modifies nothing
+//@   ensures fresh(result) && kvkey(result) == SK(nodeId, round, snap) && kvval(result) == KeyAsVal(kvkey(result))
+//@ assume func graphTopologyKey
+//@   modifies nothing
+//@   ensures fresh(result) && kvkey(result) == TopoKeyId(order) && kvval(result) == KeyAsVal(kvkey(result))
+//@ assume func graphSnapTopologyKey
+//@   modifies nothing
+//@   ensures fresh(result) && kvkey(result) == SnapTopoKeyId(kvval(hash))
+//@ assume func graphWorkSnapshotKey
+//@   modifies nothing
+//@   ensures fresh(result) && kvkey(result) == WorkSnapKeyId(kvval(nodeId), round, ts)
+//@ assume func graphAssetInfoKey
+//@   modifies nothing
+//@   ensures fresh(result) && kvkey(result) == AIK(id)
+//@ assume func graphAssetTotalKey
+//@   modifies nothing
+//@   ensures fresh(result) && kvkey(result) == ATK(id)
+
+//@ -- ═════════ badger_asset.go ═════════
+//@ -- TotalOf: the recorded supply of an asset in the view t: the amount encoded by the decimal text stored under ASSETTOTAL/<asset>, 0 when absent.
+//@ spec TotalOf(t badger.Txn, a crypto.Hash) mathint = badger.kvget(t, ATK(a)) == 0 ? 0 : common.AmountOfVal(badger.kvget(t, ATK(a)))
+//@ spec HasAssetInfo(t badger.Txn, a crypto.Hash) bool = badger.kvget(t, AIK(a)) != 0
+//@ -- (the string <-> bytes conversions of the total are linked to value ids by kvstr(s), see govc/ext_kvstr.go)
+//@ spec AmountOfStr(s string) mathint = common.AmountOfVal(kvstr(s))
+
+//@ func readTotalInAsset
+//@   property C17
+//@   requires txn != nil
+//@   modifies nothing
+//@   ensures [total] err == nil ==> val(result0) == TotalOf(*txn, hash) && val(result0) >= 0
+//@   ensures [c16-errors] err != nil ==> badger.iofail(err)
+
+//@ -- readAssetInfo: json.Unmarshal (reflection) is outside the subset: ASSUMED (opaque), transcribed from the body: ErrKeyNotFound =>
+//@ -- (nil, nil); other Get/ValueCopy errors are returned; otherwise the decoded asset, with the JSON error or Asset.Verify's verdict.
+//@ func readAssetInfo
+//@   opaque
+//@   requires txn != nil
+//@   modifies nothing
+//@   ensures [absent] !HasAssetInfo(*txn, id) ==> result0 == nil && (err == nil || badger.iofail(err))
+//@   ensures [present] HasAssetInfo(*txn, id) && err == nil ==> result0 != nil && fresh(result0) &&
+//@       result0.Chain == common.AssetChainOfVal(badger.kvget(*txn, AIK(id))) && result0.AssetKey == common.AssetKeyOfVal(badger.kvget(*txn, AIK(id)))
+//@   ensures [errors] err != nil ==> badger.iofail(err) || (HasAssetInfo(*txn, id) && !common.AssetInfoWf(badger.kvget(*txn, AIK(id))))
+
+//@ -- SameInfo: the stored asset info of id agrees with a (what verifyAssetInfo / writeAssetInfo accept)
+//@ spec SameInfo(t badger.Txn, id crypto.Hash, a *common.Asset) bool = common.AssetChainOfVal(badger.kvget(t, AIK(id))) == a.Chain && common.AssetKeyOfVal(badger.kvget(t, AIK(id))) == a.AssetKey
+//@ func writeAssetInfo
+//@   property C15, C16
+//@   requires txn != nil && a != nil
+//@   nopanic when true -- the only panic is a failing json.Marshal of a *common.Asset (excluded by the assumed contract of json.Marshal)
+//@   modifies *txn
+//@   ensures [first-wins] old(HasAssetInfo(*txn, id)) ==> *txn == old(*txn)
+//@   ensures [mismatch-refused] old(HasAssetInfo(*txn, id)) && !old(SameInfo(*txn, id, a)) ==> err != nil
+//@   ensures [frame] forall k mathint :: {badger.kvget(*txn, k)} k != AIK(id) ==> badger.kvget(*txn, k) == old(badger.kvget(*txn, k))
+//@   ensures [written] err == nil ==> HasAssetInfo(*txn, id)
+//@   ensures [fail] err != nil ==> *txn == old(*txn)
+//@   ensures [c16-accepts] err != nil && (!old(HasAssetInfo(*txn, id)) || (common.AssetInfoWf(old(badger.kvget(*txn, AIK(id)))) && old(SameInfo(*txn, id, a)))) ==> badger.iofail(err)
+
+//@ -- writeTotalInAsset: ASSETTOTAL/<asset> moves by Delta(ver), by transaction class (C17):
+//@ --   deposit +deposit amount | mint +mint amount | genesis +sum of outputs | withdrawal submission -sum of its submit outputs | every other class 0 (no write).
+//@ -- TxShapeOK: the stored transaction came out of the decoder (non-nil inputs/outputs, an empty Genesis is nil) and was admitted by Validate (OnlySpecial).
+//@ spec TxShapeOK(ver *common.VersionedTransaction) bool = ver != nil && len(ver.Inputs) >= 1 && common.InputsOK(&ver.SignedTransaction.Transaction) && common.OutputsOK(&ver.SignedTransaction.Transaction) &&
+//@     common.OnlySpecial(&ver.SignedTransaction.Transaction) && (forall j int :: 0 <= j && j < len(ver.Inputs) ==> common.NilIfEmpty(ver.Inputs[j].Genesis))
+//@ -- TotalPre (C16): what makes writeTotalInAsset panic-free: the asset is known, amounts are positive, the new total stays within the capacity,
+//@ -- and a withdrawal submission never takes more than the recorded total (the latter is C17's invariant: total == sum of unconsumed outputs).
+//@ spec TotalPre(t badger.Txn, ver *common.VersionedTransaction) bool = HasAssetInfo(t, ver.Asset) &&
+//@     (common.DepositShape(&ver.SignedTransaction.Transaction) ==> val(ver.Inputs[0].Deposit.Amount) > 0 && TotalOf(t, ver.Asset) + val(ver.Inputs[0].Deposit.Amount) <= common.CapacityOf(ver.Asset)) &&
+//@     (common.MintShape(&ver.SignedTransaction.Transaction) ==> val(ver.Inputs[0].Mint.Amount) > 0 && TotalOf(t, ver.Asset) + val(ver.Inputs[0].Mint.Amount) <= common.CapacityOf(ver.Asset)) &&
+//@     (common.GenesisShape(&ver.SignedTransaction.Transaction) ==> (forall i int :: 0 <= i && i < len(ver.Outputs) ==> val(ver.Outputs[i].Amount) > 0) &&
+//@          (forall i int :: 0 <= i && i <= len(ver.Outputs) ==> TotalOf(t, ver.Asset) + common.SumOut(ver.Outputs, i) <= common.CapacityOf(ver.Asset))) &&
+//@     (common.PlainInputs(&ver.SignedTransaction.Transaction) ==> (forall i int :: 0 <= i && i < len(ver.Outputs) && ver.Outputs[i].Type == common.OutputTypeWithdrawalSubmit ==> val(ver.Outputs[i].Amount) > 0) &&
+//@          (forall i int :: 0 <= i && i <= len(ver.Outputs) ==> common.SumSubmit(ver.Outputs, i) <= TotalOf(t, ver.Asset)) && TotalOf(t, ver.Asset) <= common.CapacityOf(ver.Asset))
+//@ func writeTotalInAsset
+//@   property C17, C16, C15
+//@   requires txn != nil && TxShapeOK(ver)
+//@   nopanic when TotalPre(*txn, ver)
+//@   modifies *txn
+//@   ensures [frame] forall k mathint :: {badger.kvget(*txn, k)} k != ATK(ver.Asset) ==> badger.kvget(*txn, k) == old(badger.kvget(*txn, k))
+//@   ensures [fail] err != nil ==> *txn == old(*txn)
+//@   ensures [deposit] err == nil && common.DepositShape(&ver.SignedTransaction.Transaction) ==> TotalOf(*txn, ver.Asset) == old(TotalOf(*txn, ver.Asset)) + val(ver.Inputs[0].Deposit.Amount)
+//@   ensures [mint] err == nil && common.MintShape(&ver.SignedTransaction.Transaction) ==> TotalOf(*txn, ver.Asset) == old(TotalOf(*txn, ver.Asset)) + val(ver.Inputs[0].Mint.Amount)
+//@   ensures [genesis] err == nil && common.GenesisShape(&ver.SignedTransaction.Transaction) ==> TotalOf(*txn, ver.Asset) == old(TotalOf(*txn, ver.Asset)) + common.SumOut(ver.Outputs, len(ver.Outputs))
+//@   ensures [submit] err == nil && common.SubmitShape(&ver.SignedTransaction.Transaction) ==> TotalOf(*txn, ver.Asset) == old(TotalOf(*txn, ver.Asset)) - common.SumSubmit(ver.Outputs, len(ver.Outputs))
+//@   ensures [other] common.OtherShape(&ver.SignedTransaction.Transaction) ==> *txn == old(*txn)
+//@   ensures [nonneg] err == nil ==> 0 <= TotalOf(*txn, ver.Asset)
+//@   ensures [capacity] err == nil && (common.DepositShape(&ver.SignedTransaction.Transaction) || common.MintShape(&ver.SignedTransaction.Transaction) || common.GenesisShape(&ver.SignedTransaction.Transaction) || common.SubmitShape(&ver.SignedTransaction.Transaction)) ==>
+//@       TotalOf(*txn, ver.Asset) <= common.CapacityOf(ver.Asset)
+//@   ensures [c16-accepts] err != nil && HasAssetInfo(*txn, ver.Asset) && common.AssetInfoWf(badger.kvget(*txn, AIK(ver.Asset))) ==> badger.iofail(err)
+//@   hint after TransactionType [classify] (callresult == common.TransactionTypeDeposit ==> common.DepositShape(&ver.SignedTransaction.Transaction)) && (callresult == common.TransactionTypeMint ==> common.MintShape(&ver.SignedTransaction.Transaction)) &&
+//@       (callresult == common.TransactionTypeWithdrawalSubmit ==> common.PlainInputs(&ver.SignedTransaction.Transaction))
+//@   hint after TransactionType [classify-rest] callresult != common.TransactionTypeDeposit && callresult != common.TransactionTypeMint ==>
+//@       (!isnil(ver.Inputs[0].Genesis) ==> common.GenesisShape(&ver.SignedTransaction.Transaction)) && (isnil(ver.Inputs[0].Genesis) ==> common.PlainInputs(&ver.SignedTransaction.Transaction))
+//@   loop 0 invariant [running] val(total) == old(TotalOf(*txn, ver.Asset)) - common.SumSubmit(ver.Outputs, rangeindex + 1) && val(total) >= 0
+//@   loop 0 invariant [decreasing] val(total) <= old(TotalOf(*txn, ver.Asset))
+//@   loop 0 invariant [unfold] rangeindex + 1 < len(ver.Outputs) ==> common.SumSubmit(ver.Outputs, rangeindex + 2) == common.SumSubmit(ver.Outputs, rangeindex + 1) + (ver.Outputs[rangeindex + 1].Type == common.OutputTypeWithdrawalSubmit ? val(ver.Outputs[rangeindex + 1].Amount) : 0)
+//@   loop 1 invariant [unfold] rangeindex + 1 < len(ver.Outputs) ==> common.SumOut(ver.Outputs, rangeindex + 2) == common.SumOut(ver.Outputs, rangeindex + 1) + val(ver.Outputs[rangeindex + 1].Amount)
+//@   loop 1 invariant [running] val(total) == old(TotalOf(*txn, ver.Asset)) + common.SumOut(ver.Outputs, rangeindex + 1) && val(total) >= 0
